@@ -134,6 +134,14 @@ def cases(tier, seed):
                     [n / N_MED for n in ns], [K * r for r in rs]))
     out.append({"id": "layered-thickness", "kind": "layered_t"})
     out.append({"id": "theory-object-reuse", "kind": "reuse"})
+    # spheres of growing and shrinking size one after the other on ONE
+    # detector whose points share a polar angle / a distance (rings, a grid
+    # centred on the particle, one point): what a kernel keeps from the
+    # previous call is asked for again with another expansion order
+    for th in LADDER_TH:
+        for dk in LADDER_DET:
+            out.append({"id": "size-ladder:%s:%s" % (th, dk),
+                        "kind": "ladder", "th": th, "det": dk})
     # one deliberate vector beyond the Fortran Bessel routine's range
     # (DESIGN.md section 6 #13)
     reqs.append(mie_ref.req_homog(1.2, 5.0))
@@ -591,9 +599,65 @@ def _run_reuse(case, ck):
     return digest(*fps)
 
 
+LADDER_TH = ["mie", "mie-asym", "ms1-tight", "mielens"]
+LADDER_DET = ["ring", "centred-grid", "one-point", "forward"]
+LADDER_R = [0.1, 0.3, 0.5, 0.9, 1.4]
+
+
+def _ladder_op(th, dk, quantity, r):
+    import warnings
+    import holopy as hp
+    from holopy.scattering import (calc_field, calc_scat_matrix, Sphere,
+                                   Spheres, Mie, Multisphere, MieLens)
+    c = (1.0, 1.0, 8.0)
+    if dk == "ring":
+        det = hp.detector_points(theta=np.full(6, 0.7),
+                                 phi=np.linspace(0.0, 5.0, 6), r=20.0)
+    elif dk == "one-point":
+        det = hp.detector_points(theta=np.array([0.7]), phi=np.array([1.0]),
+                                 r=20.0)
+    elif dk == "forward":
+        det = hp.detector_points(theta=np.array([0.0, 0.0]),
+                                 phi=np.array([0.0, 1.0]), r=20.0)
+    else:
+        det = hp.detector_grid((5, 5), 0.5)       # centred on (1, 1)
+    sph = Sphere(n=1.59, r=r, center=c)
+    if th == "ms1-tight":
+        sc, theory = Spheres([sph]), Multisphere(eps=1e-10, qeps1=1e-9,
+                                                 qeps2=1e-12)
+    elif th == "mielens":
+        sc, theory = sph, MieLens(0.8)
+    else:
+        sc, theory = sph, (Mie() if th == "mie" else Mie(False, False))
+    with warnings.catch_warnings():
+        warnings.simplefilter("ignore")
+        if quantity == "field":
+            v = calc_field(det, sc, N_MED, WL, (0.6, 0.8),
+                           theory=theory).values
+        else:
+            v = calc_scat_matrix(det, sc, N_MED, WL, theory=theory).values
+    v = np.asarray(v).ravel()
+    return [float(x) for x in np.concatenate([v.real, v.imag])]
+
+
+def _run_ladder(case, ck):
+    from lib import pair_ladder
+    th, dk = case["th"], case["det"]
+    fps = []
+    for quantity in ("field", "scatmat"):
+        if th == "mielens" and (quantity == "scatmat" or
+                                dk != "centred-grid"):
+            continue
+        fps.append(pair_ladder(
+            ck, ["r=%r" % r for r in LADDER_R],
+            lambda name, q=quantity: _ladder_op(th, dk, q, float(name[2:])),
+            "size-ladder:" + quantity, tol=1e-9))
+    return digest(*fps)
+
+
 def run_case(case):
     ck = Checker()
-    fp = {"mie": _run_mie, "far": _run_far, "j1zero": _run_j1zero, "ms": _run_ms, "msm": _run_msm,
+    fp = {"mie": _run_mie, "ladder": _run_ladder, "far": _run_far, "j1zero": _run_j1zero, "ms": _run_ms, "msm": _run_msm,
           "reuse": _run_reuse,
           "layered": _run_layered, "layered_t": _run_layered_t}[
               case["kind"]](case, ck)
